@@ -8,7 +8,7 @@ Not decided: regex semantics.
 """
 import ast
 
-from ..model import dotted, unparse, norm, walk_no_nested
+from ..model import dotted, unparse, norm, walk_no_nested, loop_exits, loop_of
 from ..rulelib import Ctx, nodes_calling, reaching_defs, value_assigned, short
 from .c05 import _yields
 
@@ -62,7 +62,7 @@ def run(check):
         inner = [n for n in g.nodes if n.kind == 'loop' and isinstance(n.owner, ast.For) and
                  (dotted(n.owner.iter) or '') == '%s.destinations' % rv]
         for il in inner:
-          early = [x for x in walk_no_nested(il.owner, include_self=False) if isinstance(x, (ast.Break, ast.Return))]
+          early = loop_exits(il.owner)
           if early:
             r_f.violate('destinations of the matched rule cut short', gd, early[0], 'the loop over the matched rule\'s destinations can '
                         'end before all of them were considered')
@@ -177,8 +177,7 @@ def run(check):
     gam = nodes_calling(g, lambda c: isinstance(c.func, ast.Attribute) and c.func.attr == 'get_aggregate_metric')
     rules_loop = [n for n in g.nodes if n.kind == 'loop' and isinstance(n.owner, ast.For) and
                   (dotted(n.owner.iter) or '').endswith('.rules')]
-    if gam and rules_loop and not [x for x in walk_no_nested(rules_loop[0].owner, include_self=False)
-                                   if isinstance(x, (ast.Break, ast.Return))]:
+    if gam and rules_loop and not loop_exits(rules_loop[0].owner):
       r_a.ok('every aggregation rule is asked for the aggregate name (no early exit)', ag.loc(gam[0].ast))
     else:
       r_a.violate('not every rule consulted', ag, (gam or [None])[0].ast if gam else None, 'the loop over the aggregation rules can '
@@ -203,7 +202,7 @@ def run(check):
     for hc in hr_calls:
       lps = [n for n in g.nodes if n.kind == 'loop' and isinstance(n.owner, ast.For) and any(x is c for c in g.calls(hc) for x in ast.walk(n.owner.iter))]
       for lp in lps:
-        early = [x for x in walk_no_nested(lp.owner, include_self=False) if isinstance(x, (ast.Break, ast.Return))]
+        early = loop_exits(lp.owner)
         tv = lp.owner.target.id if isinstance(lp.owner.target, ast.Name) else None
         sinks = [x for x in walk_no_nested(lp.owner, include_self=False) if
                  (isinstance(x, ast.Yield) and isinstance(x.value, ast.Name) and x.value.id == tv) or
@@ -234,7 +233,7 @@ def run(check):
         tv = lp.owner.target.id if isinstance(lp.owner.target, ast.Name) else None
         ys = [x for x in walk_no_nested(lp.owner, include_self=False) if isinstance(x, ast.Yield) and isinstance(x.value, ast.Name)
               and x.value.id == tv]
-        early = [x for x in walk_no_nested(lp.owner, include_self=False) if isinstance(x, (ast.Break, ast.Return, ast.Continue))]
+        early = loop_exits(lp.owner, (ast.Break, ast.Return, ast.Continue))
         if ys and not early:
           okc = True
       if okc:
